@@ -508,9 +508,9 @@ func genCase(t *rapid.T) Case {
 		r["s"] = strVal(t, "s", allowMissing)
 		c.Rows = append(c.Rows, r)
 	}
-	if rapid.IntRange(0, 3).Draw(t, "paced") == 0 {
+	if rapid.IntRange(0, 5).Draw(t, "paced") == 5 {
 		for range c.Rows {
-			c.Pace = append(c.Pace, rapid.SampledFrom([]int{0, 0, 1, 1, 2}).Draw(t, "pace"))
+			c.Pace = append(c.Pace, rapid.SampledFrom([]int{0, 1, 1, 0, 1, 0, 2}).Draw(t, "pace"))
 		}
 	}
 	// cap: unset | comfortably / exactly within | below the live partition count
